@@ -17,7 +17,11 @@ fn chk<T: Serialize + Schema>(ctx: &Ctx, name: &'static str, vals: Vec<T>, n: &m
             Ok(j) => j,
             Err(_) => continue,
         };
-        let bytes = postcard::to_allocvec(v).unwrap();
+        // the static encoding is the yardstick here (C01/C02 decide whether it is right)
+        let bytes = match trap(|| postcard::to_allocvec(v)) {
+            Ok(Ok(b)) => b,
+            _ => continue,
+        };
         *n += 2;
         let case = || json!({"type": name, "json": j, "static_bytes": hex(&bytes)});
         match trap(|| to_stdvec_dyn(&schema, &j)) {
